@@ -18,8 +18,8 @@ import (
 //	push    direct svc.Request of a hand-built request (Kind, Rows, Wide)
 //	http    a request through the real router/handler in its own goroutine (Proto, Rows, Streams, Big)
 //	flush   PlanFlush of one service (Kind)
-//	release end the oldest gated INSERT of one service with success or an error (Kind, OK)
-//	refuse  make the next N reconnects fail (N)
+//	release end the oldest gated INSERT of one service with success or an error (Kind, OK, Err = error class)
+//	refuse  make the next N reconnects fail (N, Err = error class)
 //	stop    stop one service (Kind); only generated as the last action
 type Action struct {
 	Op      string `json:"op"`
@@ -29,6 +29,8 @@ type Action struct {
 	Streams int    `json:"streams,omitempty"`
 	Wide    int    `json:"wide,omitempty"`
 	Big     bool   `json:"big,omitempty"`
+	Err     string `json:"err,omitempty"`  // release with an error / refuse: error class (fakech.ErrClasses); "" = plain
+	Tail    bool   `json:"tail,omitempty"` // http: the generator appended a flush / fail / flush / succeed tail for its services
 	OK      bool   `json:"ok,omitempty"`
 	N       int    `json:"n,omitempty"`
 }
@@ -90,7 +92,7 @@ func GenHistory(rt *rapid.T, o GenOpts) History {
 		case Metrics:
 			protos = append(protos, "prom")
 		case Spans, Tags:
-			protos = append(protos, "zipkin")
+			protos = append(protos, "zipkin", "otlp")
 		case Profile:
 			protos = append(protos, "profile")
 		}
@@ -113,15 +115,26 @@ func GenHistory(rt *rapid.T, o GenOpts) History {
 			a := Action{Op: "http", Proto: rapid.SampledFrom(protos).Draw(rt, "proto")}
 			a.Rows = rapid.IntRange(1, 6).Draw(rt, "rows")
 			a.Streams = rapid.IntRange(1, 3).Draw(rt, "streams")
-			if o.BigRows && (a.Proto == "prom" || a.Proto == "profile") {
-				a.Big = rare("big", 4)
+			if o.BigRows {
+				// prom: one series beyond the decoder's 1000-point flush; profile: labels beyond 1 MiB;
+				// loki / zipkin / otlp: a body that crosses the parser's 1 MiB chunk threshold and so
+				// becomes >= 2 insert requests per service
+				a.Big = rare("big", 3)
+			}
+			if t := rapid.IntRange(0, 2).Draw(rt, "tail"); t == 2 || (a.Big && t == 1) {
+				a.Tail = true
+				a.Err = rapid.SampledFrom(fakech.ErrClasses).Draw(rt, "err")
 			}
 			return a
 		case "release-ok", "release-err":
-			return Action{Op: "release", Kind: rapid.SampledFrom(focus).Draw(rt, "kind"), OK: op == "release-ok"}
+			a := Action{Op: "release", Kind: rapid.SampledFrom(focus).Draw(rt, "kind"), OK: op == "release-ok"}
+			if !a.OK {
+				a.Err = rapid.SampledFrom(fakech.ErrClasses).Draw(rt, "err")
+			}
+			return a
 		case "refuse":
 			if rare("refuse", 6) {
-				return Action{Op: "refuse", N: 1}
+				return Action{Op: "refuse", N: 1, Err: rapid.SampledFrom([]string{"refused", "dns-timeout", "timeout", "plain"}).Draw(rt, "err")}
 			}
 		}
 		return Action{Op: "flush", Kind: rapid.SampledFrom(focus).Draw(rt, "kind")}
@@ -135,11 +148,46 @@ func GenHistory(rt *rapid.T, o GenOpts) History {
 			refused++
 		}
 		h.Actions = append(h.Actions, a)
+		if a.Op == "http" && a.Tail {
+			// the push is queued; its INSERT fails once (retried parts are re-submitted while later
+			// chunks of the same body sit in the queue), then everything is let through
+			h.Actions = append(h.Actions, tailOf(a)...)
+		}
 	}
 	if rare("stop", 12) {
 		h.Actions = append(h.Actions, Action{Op: "stop", Kind: rapid.SampledFrom(focus).Draw(rt, "kind")})
 	}
 	return h
+}
+
+// KindsOfProto lists the services an HTTP push of a protocol feeds; the first one is the
+// service whose flush asks for the flush of the second (OnBeforeInsert).
+func KindsOfProto(proto string) []Kind {
+	switch proto {
+	case "loki", "prom":
+		return []Kind{Samples, Series}
+	case "zipkin", "otlp":
+		return []Kind{Spans, Tags}
+	case "profile":
+		return []Kind{Profile}
+	}
+	return nil
+}
+
+func tailOf(a Action) []Action {
+	ks := KindsOfProto(a.Proto)
+	if len(ks) == 0 {
+		return nil
+	}
+	out := []Action{{Op: "flush", Kind: ks[0]}, {Op: "release", Kind: ks[0], Err: a.Err}}
+	for _, k := range ks[1:] {
+		out = append(out, Action{Op: "release", Kind: k, OK: true})
+	}
+	out = append(out, Action{Op: "flush", Kind: ks[0]}, Action{Op: "release", Kind: ks[0], OK: true})
+	for _, k := range ks[1:] {
+		out = append(out, Action{Op: "flush", Kind: k}, Action{Op: "release", Kind: k, OK: true})
+	}
+	return out
 }
 
 // Request is one logical push of a history.
@@ -470,7 +518,7 @@ func RunHistory(h History) *Trace {
 			}
 			var err error
 			if !a.OK {
-				err = fmt.Errorf("scripted failure of INSERT #%d", target.Seq)
+				err = fakech.ErrorOf(a.Err, target.Seq)
 			}
 			hs.DB.Release(target, err)
 			hs.DB.WaitDone(target, 20*time.Second)
@@ -487,7 +535,7 @@ func RunHistory(h History) *Trace {
 				}
 			}
 		case "refuse":
-			hs.DB.RefuseConnect(a.N)
+			hs.DB.RefuseConnectWith(a.N, a.Err)
 			if exact {
 				m.refusals = a.N
 			}
